@@ -30,6 +30,9 @@ var (
 	dstLengths = []int{2, 15, 16, 17, 31, 32, 33, 54, 55, 56, 63, 64, 65, 127, 128, 254, 255, 256, 257, 300, 511, 512, 1000}
 )
 
+// hugeLengths: around 2^16, 2*2^16, 3*2^16 (+ the values whose low 16 bits are <= 255), and 2^20.
+var hugeLengths = []int{65535, 65536, 65537, 65791, 65792, 131071, 131072, 131073, 196650, 1 << 20}
+
 // shortMsgs returns nil, the empty non-nil message and every message of length 1 (and 2 when two is set).
 func shortMsgs(two bool) [][]byte {
 	out := [][]byte{nil, {}}
@@ -119,6 +122,17 @@ func hashPairs(size int) []hashPair {
 	for _, d := range ld {
 		for _, m := range msgs[:40] {
 			out = append(out, hashPair{m, d})
+		}
+	}
+
+	// very long inputs: lengths around multiples of 2^16 (a length carried in a 16-bit variable wraps there), 2^20
+	for _, l := range hugeLengths {
+		for _, m := range [][]byte{nil, []byte("abc")} {
+			out = append(out, hashPair{m, fill(l, 2)})
+		}
+
+		for _, d := range [][]byte{[]byte("QUUX-V01-CS02-with-secp256k1_XMD:SHA-256_SSWU_RO_"), fill(300, 2)} {
+			out = append(out, hashPair{fill(l, 2), d})
 		}
 	}
 
